@@ -124,7 +124,7 @@ pub fn decode_update(b: &[u8], names: &Names) -> Result<Value, String> {
     let tick = c.varint()?;
     let last = 1u8 << (7 - flags.leading_zeros());
     let mut maps = Vec::new();
-    let mut desp = Vec::new();
+    let mut desp = serde_json::Map::new();
     let mut rems = serde_json::Map::new();
     let mut chg = serde_json::Map::new();
     let mut order: Vec<String> = Vec::new();
@@ -148,8 +148,9 @@ pub fn decode_update(b: &[u8], names: &Names) -> Result<Value, String> {
                     maps.push(json!([ent_name(s, names), pre_name(p, names)]));
                 }
                 2 => {
-                    let e = c.entity_bits()?;
-                    desp.push(json!(ent_name(e, names)));
+                    let e = ent_name(c.entity_bits()?, names);
+                    let cnt = desp.get(&e).and_then(|v: &Value| v.as_u64()).unwrap_or(0);
+                    desp.insert(e, json!(cnt + 1));
                 }
                 4 => {
                     let e = ent_name(c.entity_bits()?, names);
@@ -188,12 +189,8 @@ pub fn decode_update(b: &[u8], names: &Names) -> Result<Value, String> {
     Ok(json!({"tick": tick, "maps": maps, "desp": desp, "rems": rems, "chg": chg, "order": order, "len": b.len()}))
 }
 
-pub fn decode_mutate(b: &[u8], names: &Names) -> Result<Value, String> {
-    let mut c = Cur::new(b);
-    let upd = c.varint()?;
-    let tick = c.varint()?;
-    let cnt: i64 = if names.track { c.varint()? as i64 } else { -1 };
-    let idx = c.u16le()?;
+/// Decodes the entity section of a mutate message: `(ents, sizes, order)`.
+pub fn decode_mutate_body(c: &mut Cur, names: &Names) -> Result<(serde_json::Map<String, Value>, serde_json::Map<String, Value>, Vec<String>), String> {
     let mut ents = serde_json::Map::new();
     let mut sizes = serde_json::Map::new();
     let mut order = Vec::new();
@@ -202,12 +199,12 @@ pub fn decode_mutate(b: &[u8], names: &Names) -> Result<Value, String> {
         let e = ent_name(c.entity_bits()?, names);
         let size = c.varint()? as usize;
         let end = c.p + size;
-        if end > b.len() {
+        if end > c.b.len() {
             return Err("entity data exceeds message".into());
         }
         let mut comps = serde_json::Map::new();
         while c.p < end {
-            let (k, v) = component(&mut c, &e, names)?;
+            let (k, v) = component(c, &e, names)?;
             if comps.insert(k.clone(), v).is_some() {
                 return Err(format!("duplicate component {k} for {e}"));
             }
@@ -221,7 +218,18 @@ pub fn decode_mutate(b: &[u8], names: &Names) -> Result<Value, String> {
             return Err(format!("duplicate entity {e} in mutate message"));
         }
     }
-    Ok(json!({"upd": upd, "tick": tick, "cnt": cnt, "idx": idx, "ents": ents, "sizes": sizes, "order": order, "len": b.len()}))
+    Ok((ents, sizes, order))
+}
+
+pub fn decode_mutate(b: &[u8], names: &Names) -> Result<Value, String> {
+    let mut c = Cur::new(b);
+    let upd = c.varint()?;
+    let tick = c.varint()?;
+    let cnt: i64 = if names.track { c.varint()? as i64 } else { -1 };
+    let idx = c.u16le()?;
+    let hdr = c.p;
+    let (ents, sizes, order) = decode_mutate_body(&mut c, names)?;
+    Ok(json!({"upd": upd, "tick": tick, "cnt": cnt, "idx": idx, "ents": ents, "sizes": sizes, "order": order, "len": b.len(), "hdr": hdr}))
 }
 
 pub fn decode_acks(b: &[u8]) -> Result<Value, String> {
